@@ -13,6 +13,7 @@ from .. import coqio
 from ..api import Case, Suite
 
 ID = "C14"
+MERGE = ["C14site"]     # site-level part (navigation targets, author links, reachability) lives in C14site
 PROPS_FILE = "Props/C14.v"
 GEN_DEPS: List[str] = []
 ALLOWED_AXIOMS: List[str] = []
